@@ -106,6 +106,8 @@ def generate(ctx):
     if fmt.layout == "fastaw" and tape.boolean("fa.width", 1, 3):
         # a FASTA writer with another line width (subclass of the buffer type with n_characters_per_line overridden)
         sc["fasta_width"] = tape.choice([60, 7, 100], "fa.width.v")
+    if tape.boolean("first_mode_append", 1, 6):
+        sc["first_mode"] = "a"
     if source == "lazy_permuted":
         # the file holds the rows in another order; the table is file_table[perm] (an integer list that is not ascending)
         pool = list(range(len(rows)))
@@ -170,7 +172,7 @@ class Writer:
 
     def _run(self):
         b = core.bnp()
-        w = self._open("w")
+        w = self._open(self.d.get("first_mode") or "w")      # "a": a target that does not exist yet opened for appending
         if raised(w):
             self.error = w
             return
